@@ -147,6 +147,7 @@ std::shared_ptr<Conn> client_connect(const std::string &addr,size_t cap_to_serve
 bool is_listening(const std::string &addr);
 int open_sim_fds();                     // number of simulated descriptors currently open
 void set_link_cut(int node,const std::string &addr,bool cut);   // fault: partition between one node's threads and one listening address
+int unconsumed_resets();                 // connecting-side sockets hit by an injected reset whose owner has not closed them yet
 bool reset_accepted_stream(uint64_t pick); // fault: one established (accepted) connection is reset, both ends see ECONNRESET
 int open_accepted_fds();                // ... of which were returned by accept() (server side connections)
 std::string describe_fds();
